@@ -43,11 +43,14 @@ B = z3.BoolSort()
 class InputCtx:
     """A symbolic input buffer S[0..L) with L <= LMAX and its helper definitions."""
 
-    def __init__(self, lmax, suffix='', utf8=True, ascii_only=False):
+    def __init__(self, lmax, suffix='', share=None):
+        """share: another InputCtx whose buffer S (and address grammar symbols) this one reuses with
+        its own length L: the same byte stream seen at another length (prefix / longer read)."""
         self.lmax = lmax
         self.suffix = suffix
         self.big = lmax + 10
-        self.S = z3.Function('S' + suffix, I, I)
+        self.shared = share
+        self.S = share.S if share is not None else z3.Function('S' + suffix, I, I)
         self.L = z3.Int('L' + suffix)
         self.buf = Buf('in' + suffix, fn=self.S, length=self.L)
         self.axioms = []
@@ -59,10 +62,15 @@ class InputCtx:
         self._memo = {}
         self._utf8 = None
         # uninterpreted std address grammars (position-based: a function of the fixed input S)
-        self.ok4 = z3.Function('ok4' + suffix, I, I, B)
-        self.val4 = z3.Function('val4' + suffix, I, I, I)
-        self.ok6 = z3.Function('ok6' + suffix, I, I, B)
-        self.val6 = z3.Function('val6' + suffix, I, I, I)
+        if share is not None:
+            self.ok4, self.val4, self.ok6, self.val6 = share.ok4, share.val4, share.ok6, share.val6
+            self._utf8 = share.utf8fns()         # a function of S only
+            self._next = share._next
+        else:
+            self.ok4 = z3.Function('ok4' + suffix, I, I, B)
+            self.val4 = z3.Function('val4' + suffix, I, I, I)
+            self.ok6 = z3.Function('ok6' + suffix, I, I, B)
+            self.val6 = z3.Function('val6' + suffix, I, I, I)
 
     def input_str(self, is_str=True):
         return Str(self.buf, 0, self.L, is_str)
@@ -241,10 +249,10 @@ def closure_pred(ex, clo, argkind='char'):
         arg = x if argkind == 'char' else Ref(Cell(x))
         return e.call_fn(clo.fnname, [Ref(Cell(clo)), arg], {})
 
-    for script, pc, out, notes in explore(sub_ex, run):
+    for script, items, out, notes in explore(sub_ex, run):
         if out[0] != 'ret':
             raise Unsupported('closure predicate panics')
-        cases.append(and_(*(pc + [out[1]])))
+        cases.append(and_(*([c_ for _, c_ in items] + [out[1]])))
     f = z3.simplify(Z(or_(*cases)))
     # the byte-level use of a char predicate is only sound if it is false on every non-ASCII char
     s = z3.Solver()
@@ -271,11 +279,12 @@ def find_first(ex, s, lo, key, pred):
     if c is None:
         raise Unsupported('find on a non-input buffer')
     npred = lambda b: z3.Not(pred(b))
-    none_in_range = c.forall_range(lo, s.end, 'not_' + key, npred)
-    if ex.branch(z3.Not(none_in_range)):
-        j = ex.fresh('ix')
-        ex.assume(z3.And(Z(lo) <= j, j < Z(s.end), pred(c.S(j))))
-        ex.assume(c.forall_range(lo, j, 'not_' + key, npred))
+    # total definition: j = least index in [lo, end) with pred(S[j]), or end if there is none
+    # (invariant lo <= end holds for every caller: cursors never pass the end of their slice)
+    j = ex.fresh('ix')
+    ex.assume(z3.And(Z(lo) <= j, j <= Z(s.end), c.forall_range(lo, j, 'not_' + key, npred),
+                     z3.Or(j == Z(s.end), pred(c.S(j)))))
+    if ex.branch(j < Z(s.end)):
         return True, j
     return False, None
 
@@ -380,9 +389,10 @@ def parse_addr(ex, s, fam):
         raise Unsupported('parse::<IpAddr> on a non-input buffer')
     ok, val = (c.ok4, c.val4) if fam == 4 else (c.ok6, c.val6)
     okv = ok(Z(s.start), Z(s.end))
+    # std contract facts about accepted address texts (axiom, asserted before the branch)
+    ex.assume(z3.Implies(okv, z3.And(Z(s.len()) > 0, Z(s.len()) <= (15 if fam == 4 else 45),
+                                     c.forall_range(s.start, s.end, 'v%dchars' % fam, V4_CHARS if fam == 4 else V6_CHARS))))
     if ex.branch(okv):
-        ex.assume(and_(gt(s.len(), 0), le(s.len(), 15 if fam == 4 else 45)))
-        ex.assume(c.forall_range(s.start, s.end, 'v%dchars' % fam, V4_CHARS if fam == 4 else V6_CHARS))
         ex.notes.append(('addr', fam, s.start, s.end, True))
         return Ok(Opaque('ip', fam=fam, val=val(Z(s.start), Z(s.end)), src=(s.start, s.end)))
     ex.notes.append(('addr', fam, s.start, s.end, False))
@@ -442,27 +452,69 @@ def resolve_crate_call(ex, f, argv, frame):
             if last_seg(strip_generics(itr)) != last_seg(strip_generics(tr)):
                 continue
             cands.append((itr, ity, name))
-        # exact (generic-insensitive) self type + trait args
-        def tkey(t):
-            return re.sub(r'\b(?:\w+::)+', '', t)
+
+        def tkey(t, dv=None):
+            """module-insensitive but version-sensitive key: v1::error::ParseError ~ v1::ParseError ~
+            ParseError written inside src/v1/ (dv = version of the file the impl lives in)"""
+            def one(mm):
+                path = mm.group(0).split('::')
+                if path[0] in ('std', 'core', 'alloc'):
+                    return path[-1]
+                ver = [p for p in path[:-1] if p in ('v1', 'v2')]
+                v = ver[0] if ver else dv
+                return (v + '::' if v else '') + path[-1]
+            return re.sub(r"(?<![\w:'])[A-Za-z_]\w*(?:::\w+)*", one, t)
+
+        def dver(name):
+            mm2 = re.search(r'<impl at src/(v1|v2)/', name)
+            return mm2.group(1) if mm2 else None
+        PRIM = ('u8', 'u16', 'u32', 'u64', 'u128', 'usize', 'i8', 'i16', 'i32', 'i64', 'i128', 'isize', 'str', 'bool', 'char', 'T', 'E', 'Self')
+        cands = [(c[0], c[1], c[2]) for c in cands]
+        _tk = tkey
+
+        def tkey(t, dv=None, _tk=_tk):
+            r = _tk(t, dv)
+            for pnm in PRIM:
+                r = re.sub(r'(?<![\w:])(?:v1|v2)::%s(?!\w)' % pnm, pnm, r)
+            return r
+        exact = [c for c in cands if tkey(c[1], dver(c[2])) == tkey(ty) and tkey(tr) in (tkey(c[0], dver(c[2])), tkey(c[0]))]
+        if len(exact) == 1:
+            return True, ex.call_fn(exact[0][2], argv, {})
+        sameself = [c for c in cands if tkey(c[1], dver(c[2])) == tkey(ty)]
+        if len(sameself) == 1:
+            return True, ex.call_fn(sameself[0][2], argv, {})
         exact = [c for c in cands if tkey(c[1]) == tkey(ty) and tkey(c[0]) == tkey(tr)]
         if len(exact) == 1:
             return True, ex.call_fn(exact[0][2], argv, {})
-        loose = [c for c in cands if last_seg(strip_generics(c[1])) == last_seg(strip_generics(ty))]
-        if len(exact) > 1:
-            loose = exact
+        sameself = [c for c in cands if tkey(c[1]) == tkey(ty)]
+        if len(sameself) == 1:
+            return True, ex.call_fn(sameself[0][2], argv, {})
+        # generic impls: unify the impl's self type pattern with the actual type
+        for c in cands:
+            gen = unify_impl(prog, c[2], c[1], ty)
+            if gen is not None and gen:
+                return True, ex.call_fn(c[2], argv, gen)
+        loose = [c for c in cands if last_seg(strip_generics(c[1])) == last_seg(strip_generics(ty))
+                 and ver_of(c[1]) == ver_of(ty)]
         if len(loose) == 1:
             return True, ex.call_fn(loose[0][2], argv, {})
-        if len(loose) > 1:
-            # disambiguate by the MIR signature of the candidates (argument type)
-            want = tkey(tr)
-            for c in loose:
-                if tkey(c[0]) == want:
-                    return True, ex.call_fn(c[2], argv, {})
-        # blanket / generic impls: by receiver type in the MIR signature
+        # blanket / macro-generated impls: by receiver type in the MIR signature
         r = find_impl_by_receiver(ex, meth, ty, tr)
         if r:
             return True, ex.call_body(r[0], argv, r[1])
+        # derive-generated impls (thiserror #[from], ...): by the MIR signature
+        mm = re.match(r'^std::convert::From<(.*)>$', m.group(2))
+        if mm and meth == 'from':
+            want_ret, want_arg = norm_ty(m.group(1)), norm_ty(mm.group(1))
+            for name, fl in ex.fns.items():
+                if name.endswith('>::from') and '<impl at' in name:
+                    fn_ = fl[0]
+                    if norm_ty(fn_.types[0]) == want_ret and fn_.args and norm_ty(fn_.types[fn_.args[0]]) == want_arg:
+                        return True, ex.call_fn(name, argv, {})
+        # trait default methods (fn Trait::method with Self generic)
+        dn = last_seg(strip_generics(tr)) + '::' + meth
+        if dn in ex.fns:
+            return True, ex.call_fn(dn, argv, {'Self': m.group(1)})
     # inherent method  path::Type::<..>::method::<..>
     m = re.match(r'^([\w:]+?)(::<[^()]*>)?::(\w+)(::<(.*)>)?$', f)
     if m and not f.startswith(('std::', 'core::', 'alloc::')):
@@ -476,6 +528,36 @@ def resolve_crate_call(ex, f, argv, frame):
                     gen = dict(zip(names, vals))
                 return True, ex.call_fn(name, argv, gen)
     return False, None
+
+
+def ver_of(t):
+    m = re.search(r'\b(v1|v2)::', t)
+    return m.group(1) if m else None
+
+
+def unify_impl(prog, fname, pattern, actual):
+    """bind the impl's generic type parameters by matching `Name<A, B>` against `path::Name<X, Y>`"""
+    m = re.search(r'<impl at (src/[^:]+):(\d+):', fname)
+    if not m:
+        return None
+    line = prog.src(m.group(1)).split('\n')[int(m.group(2)) - 1]
+    gm = re.match(r'\s*impl<(.*?)>\s', line)
+    if not gm:
+        return None
+    gens = [g.split(':')[0].strip() for g in split_top(gm.group(1))]
+    gens = [g for g in gens if g and not g.startswith("'")]
+    pm = re.match(r'^([\w:]+)<(.*)>$', pattern)
+    am = re.match(r'^([\w:]+)<(.*)>$', actual)
+    if not pm or not am or last_seg(pm.group(1)) != last_seg(am.group(1)):
+        return None
+    pa, aa = split_top(pm.group(2)), split_top(am.group(2))
+    if len(pa) != len(aa):
+        return None
+    out = {}
+    for p, a in zip(pa, aa):
+        if p in gens:
+            out[p] = a
+    return out
 
 
 def find_impl_by_receiver(ex, method, selfty, trait):
@@ -670,6 +752,10 @@ def dispatch(ex, func, argv, frame):
         return Opaque('String', s=s)
     if g.endswith('as std::clone::Clone>::clone'):
         return deref(a[0])
+    if g == 'std::fmt::Formatter::write_str':
+        fm = deref(a[0])
+        fm.pieces.append(deref(a[1]))
+        return Ok(Tuple([]))
     if g == 'std::option::Option::unwrap_or_default':
         if a[0].variant == 'Some':
             return a[0].fields[0]
